@@ -6,6 +6,7 @@ import (
 	"io"
 	"os"
 	"path/filepath"
+	"runtime"
 	"strings"
 	"testing"
 
@@ -64,6 +65,17 @@ func drawC07(rt *rapid.T, tier string) C07Scenario {
 	if tier != "thorough" && rapid.IntRange(0, 79).Draw(rt, "quick_big") == 0 {
 		// a few big files also in the quick tier: the bulk loader must split into several buckets
 		sc.Records, sc.FreeRunning, sc.Builder, sc.Target = 64000+rapid.IntRange(0, 8000).Draw(rt, "big"), true, true, rapid.SampledFrom([]string{"rdb1", "rdb2"}).Draw(rt, "big_target")
+	}
+	if rapid.IntRange(0, 11).Draw(rt, "free_batches") == 0 {
+		// batch mode on real parallelism: many small batches in flight that share hot keys, so that
+		// interleavings inside ExecuteBatch that are finer than the yield points (between the merge
+		// and the low-level write, say) are reached too
+		sc.Records, sc.FreeRunning, sc.Builder = rapid.IntRange(1500, 4000).Draw(rt, "fb_records"), true, false
+		sc.Target = rapid.SampledFrom([]string{"rdb1", "rdb2"}).Draw(rt, "fb_target")
+		sc.BatchSize = rapid.SampledFrom([]int{5, 20, 40}).Draw(rt, "fb_batch_size")
+		sc.BatchParallel = rapid.SampledFrom([]int{0, 2, 4, 8}).Draw(rt, "fb_parallel")
+		sc.Workers = rapid.SampledFrom([]int{2, 4, 8}).Draw(rt, "fb_workers")
+		sc.BadLine = false
 	}
 	if tier == "thorough" {
 		switch rapid.IntRange(0, 29).Draw(rt, "size_class") {
@@ -171,11 +183,17 @@ func runC07(t *testing.T, sc C07Scenario, keep bool) *core.Result {
 	finished := false
 	if sc.FreeRunning {
 		verifhook.Attach(sched.Perturb{})
+		prevProcs := runtime.GOMAXPROCS(4) // the workers run with one P each: real parallelism for this run only
 		got, cerr = compileOnce(&sc, in, dir)
+		runtime.GOMAXPROCS(prevProcs)
 		verifhook.Attach(nil)
 		finished = true
 		res.TraceHash = strings.ReplaceAll(fmt.Sprintf("free-%x-%s", sc.FileSeed, sc.settings()), " ", "_")
-		res.Probe("free_running_big_file")
+		if sc.Records >= 60000 {
+			res.Probe("free_running_big_file")
+		} else {
+			res.Probe("free_running_parallel_batches")
+		}
 	} else {
 		opt := sched.Options{Tape: sc.Tape, TapeSeed: sc.TapeSeed, Calm: sc.Calm, KeepSchedule: keep, MaxSteps: 400000, NoAdvanceWhileEnabled: true}
 		sched.Bubble(t, opt, func(s *sched.Sim) {
